@@ -49,7 +49,7 @@ def input_resource(draw, name, sizes=(0, 1, 2, 3, 5), types=None):
         rows = draw(gen.rows_for(flds[2:], k, k, hard=False))
     else:
         proto = draw(gen.rows_for(flds[2:], 3, 3, hard=False))
-        rows = [dict(proto[i % 3]) for i in range(k)]
+        rows = [copy.deepcopy(proto[i % 3]) for i in range(k)]     # no nested value shared between rows
     for i, r in enumerate(rows):
         r['id'] = i + 1
         r['g'] = draw(st.integers(1, 3)) if k <= 12 else (i % 3) + 1
